@@ -75,6 +75,14 @@ def py_value(ty, v):
         return tobytes(v["s"])
     if ty == "uuid":
         return uuid.UUID(bytes=tobytes(v["s"]))
+    # Bind.tla PairVal: the spec writes these values as their encoding; the Python value is read back from it
+    if ty == "decimal":
+        import decimal
+        b = tobytes(v["s"])
+        return decimal.Decimal(int.from_bytes(b[4:], "big", signed=True)).scaleb(-int.from_bytes(b[:4], "big", signed=True))
+    if ty in ("double", "float"):
+        import struct
+        return struct.unpack(">d" if ty == "double" else ">f", tobytes(v["s"]))[0]
     raise KeyError(ty)
 
 
@@ -110,8 +118,8 @@ class _Keyspace(object):
 class ClusterMetadataDouble(object):
     """What PreparedStatement.from_message reads of cluster metadata: keyspaces[ks].tables[t].partition_key[*].name"""
 
-    def __init__(self, key_names):
-        self.keyspaces = {KS: _Keyspace({TABLE: _Table(key_names)})}
+    def __init__(self, key_names, ks=KS, table=TABLE):
+        self.keyspaces = {ks: _Keyspace({table: _Table(key_names)})}
 
 
 def decode_result(body, pv, handler=None, result_metadata=None):
@@ -120,18 +128,20 @@ def decode_result(body, pv, handler=None, result_metadata=None):
     return handler.decode_message(pv, {}, 1, 0, 0x08, body, None, result_metadata)
 
 
-def make_prepared(col_types, pk, partial, pv, policy=None, result_columns=None):
+def make_prepared(col_types, pk, partial, pv, policy=None, result_columns=None, ks=KS, table=TABLE, names=None):
     """col_types: spec type names of the bind markers 1..n (server-side types); pk: 1-based marker positions of the
-    partition key components in key order; partial: the table has one more key column that is not bound."""
+    partition key components in key order; partial: the table has one more key column that is not bound;
+    ks / table / names: the identifiers as the server reports them (names[c-1] for marker c; default c1..cn)."""
     q = repo_import("cassandra.query")
     n = len(col_types)
+    col_name = (lambda c: names[c - 1]) if names else globals()["col_name"]
     key_names = [col_name(c) for c in pk] + ([UNBOUND_KEY_COLUMN] if (partial or not pk) else [])
     pk_indexes = [] if partial else [c - 1 for c in pk]          # the server sends indexes only for a complete key
     bind_columns = [(col_name(c), wire_type(col_types[c - 1])) for c in range(1, n + 1)]
-    body = wire.body_prepared(b"\x01\x02", bind_columns, pk_indexes, result_columns or [], pv, ks=KS, table=TABLE,
+    body = wire.body_prepared(b"\x01\x02", bind_columns, pk_indexes, result_columns or [], pv, ks=ks, table=table,
                               result_metadata_id=b"rm" if pv >= 5 else None)
     msg = decode_result(body, pv)
-    return q.PreparedStatement.from_message(msg.query_id, msg.bind_metadata, msg.pk_indexes, ClusterMetadataDouble(key_names),
+    return q.PreparedStatement.from_message(msg.query_id, msg.bind_metadata, msg.pk_indexes, ClusterMetadataDouble(key_names, ks, table),
                                             "Q", None, pv, msg.column_metadata, msg.result_metadata_id, policy)
 
 
@@ -261,7 +271,8 @@ class _FakeCluster(object):
 
 
 _MAPPER_COLUMNS = {"int": "Integer", "text": "Text", "bigint": "BigInt", "smallint": "SmallInt", "tinyint": "TinyInt",
-                   "boolean": "Boolean", "ascii": "Ascii", "blob": "Blob", "uuid": "UUID"}
+                   "boolean": "Boolean", "ascii": "Ascii", "blob": "Blob", "uuid": "UUID",
+                   "decimal": "Decimal", "double": "Double", "float": "Float"}
 
 
 class MapperEnv(object):
